@@ -57,8 +57,14 @@ func (r *ruleImpl) Execute(ctx heimdall.Context) (rule.Backend, error) {
 
 	switch r.slashesHandling { //nolint:exhaustive
 	case config.EncodedSlashesOn:
-		// unescape path
-		request.URL.RawPath = ""
+		// decode the encoded slashes only. Everything else stays as sent by the client
+		rawPath := encodedSlashesDecoder.Replace(request.URL.RawPath)
+		if rawPath == (&url.URL{Path: request.URL.Path}).EscapedPath() {
+			// as net/url does: the raw path is kept only if it differs from the default encoding
+			rawPath = ""
+		}
+
+		request.URL.RawPath = rawPath
 	case config.EncodedSlashesOff:
 		if containsEncodedSlash(request.URL.RawPath) {
 			return nil, errorchain.NewWithMessage(heimdall.ErrArgument,
@@ -170,6 +176,7 @@ func containsEncodedSlash(path string) bool {
 }
 
 var (
+	encodedSlashesDecoder  = strings.NewReplacer("%2F", "/", "%2f", "/")
 	encodedSlashesMasker   = strings.NewReplacer("%2F", "$$$escaped-slash-u$$$", "%2f", "$$$escaped-slash-l$$$")
 	encodedSlashesUnmasker = strings.NewReplacer("$$$escaped-slash-u$$$", "%2F", "$$$escaped-slash-l$$$", "%2f")
 )
